@@ -8,6 +8,7 @@
 #include <malloc.h>
 #include <stdbool.h>
 #include <unistd.h>
+#include <sys/mman.h>
 bool   mi_is_in_heap_region(const void* p) __attribute__((weak));
 size_t mi_usable_size(const void* p) __attribute__((weak));
 void*  pvalloc(size_t);
@@ -28,6 +29,20 @@ int main(void) {
     p = pvalloc(s); ours("pvalloc", p, s); free(p);
     { char* t = (char*)malloc(s + 1); memset(t, 'k', s); t[s] = 0; char* d = strdup(t); ours("strdup", d, s + 1); char* e = strndup(t, s / 2); ours("strndup", e, s / 2 + 1); free(d); free(e); free(t); }
     { char* rp = realpath("/usr/lib/..", NULL); ours("realpath", rp, 4); free(rp); }
+  }
+  /* strndup(s, k) may read at most k bytes of s: the source is an array of exactly k bytes without a terminator that ends at an inaccessible page */
+  {
+    const size_t ps = (size_t)sysconf(_SC_PAGESIZE);
+    char* m = (char*)mmap(NULL, 2 * ps, PROT_READ | PROT_WRITE, MAP_PRIVATE | MAP_ANONYMOUS, -1, 0);
+    if (m == MAP_FAILED || mprotect(m + ps, ps, PROT_NONE) != 0) FAIL("%s failed", "mmap for the strndup probe");
+    static const size_t ks[] = { 1, 7, 16, 100, 4096 };
+    for (size_t i = 0; i < 5; i++) {
+      const size_t k = ks[i]; char* src = m + ps - k; memset(src, 'q', k);
+      char* e = strndup(src, k); ours("strndup of an unterminated array", e, k + 1);
+      if (strlen(e) != k || memcmp(e, src, k) != 0) FAIL("%s: wrong copy", "strndup of an unterminated array");
+      free(e);
+    }
+    munmap(m, 2 * ps);
   }
   printf("\nVFRESULT {\"errs\":0,\"ovr\":{\"c_allocations_checked\":%llu}}\n", n);
   return 0;
